@@ -94,6 +94,12 @@ def same_rot(q1, q2, tol=1e-7):
 
 HO_MAX = (3 * PI / 4) ** (1 / 3)
 
+
+def in_om_band(qq):
+    """does some quaternion have a non-zero component small enough for om2qu to zero it (1 +- tr.. < 1e-9)?"""
+    a = np.abs(np.asarray(qq, float))
+    return bool(np.any((a > 0) & (a < 1e-4)))
+
 for k in range(N):
     name, q = gen()
     st(name)
@@ -190,7 +196,8 @@ for k in range(max(N // 10, 10)):
     # matrices and vectors as starting points
     M = bunge_ref(e)
     if abs(np.trace(M) + 1) > 1e-3:
-        if not np.allclose(Quaternion.from_matrix(M).to_matrix()[0], M, atol=1e-8):
+        # om2qu zeroes quaternion components below ~1.6e-5 (accepted above: |q.q'| >= 1 - 1e-7)
+        if not np.allclose(Quaternion.from_matrix(M).to_matrix()[0], M, atol=1e-4 if in_om_band(Q.data) else 1e-8):
             fail("roundtrip:matrix-start", "from_matrix(M).to_matrix() != M", {"eu": e})
 # the flags on every class that has its own constructors (Orientation overrides from_euler / from_matrix /
 # from_axes_angles to take a symmetry): degrees only rescales, direction only inverts
@@ -253,5 +260,497 @@ for shape in [(1,), (5,), (2, 3), (2, 1, 2), (0,)]:
             rep = f"{type(ex).__name__}: {ex}"
         if not ok:
             fail(f"shape:{'empty' if n == 0 else 'nd'}", f"conversions of a {cls.__name__} of shape {shape} have wrong shapes/values", {"shape": shape})
+
+
+# =====================================================================================================================
+# Audit strata: entry points / keyword paths / input classes the strata above never reach.  Everything below draws
+# from R AFTER the strata above, so the cases of the model correspondence are unchanged.
+#   nd:*        mixed arrays (both hemispheres and the singular strata in ONE array, >= 3 axes, size-1 axes) through
+#               every to_* / from_* of every class must equal the element-wise scalar Quaternion path
+#   neo:*       orix/vector/neo_euler.py: AxAngle / Rodrigues / Homochoric .from_rotation, .angle, .axis,
+#               AxAngle.from_axes_angles; neo-Eulerian OBJECTS (not ndarrays) passed back to from_*
+#   props:*     Quaternion.axis / .angle used directly
+#   action:*    Rotation.__mul__(Vector3d) (its own override) on the subclasses, broadcasting
+#   scipy:*     from_scipy_rotation of every class against SciPy's own matrix / apply
+#   start:*     axis-angle pairs, homochoric, Rodrigues and Rodrigues-Frank vectors, wide-range Euler triplets, exact
+#               two-fold and integer matrices as STARTING points, against independent references
+#   pure:*      conversions must not modify their inputs; dtype:* integer / float32 quaternions
+# =====================================================================================================================
+from scipy.spatial.transform import Rotation as SciPyRotation  # noqa: E402
+
+from orix.vector import AxAngle, Homochoric, Rodrigues  # noqa: E402
+
+CLS = [("Quaternion", Quaternion, {}), ("Rotation", Rotation, {}), ("Orientation", Orientation, {}),
+       ("Misorientation", Misorientation, {}), ("Orientation+symmetry", Orientation, {"symmetry": _sym.Oh})]
+
+
+def close(a, b, tol=1e-9):
+    a, b = np.asarray(a, float), np.asarray(b, float)
+    return a.shape == b.shape and bool(np.allclose(a, b, rtol=tol, atol=tol, equal_nan=True))
+
+
+def ang_close(a, b, tol=1e-9):
+    a, b = np.asarray(a, float), np.asarray(b, float)
+    return a.shape == b.shape and bool(np.all(np.abs(np.angle(np.exp(1j * (a - b)))) <= tol))
+
+
+def rows_same_rot(a, b, tol=1e-9):
+    a, b = np.asarray(a, float).reshape(-1, 4), np.asarray(b, float).reshape(-1, 4)
+    return a.shape == b.shape and bool(np.all(np.abs(np.sum(a * b, axis=-1)) >= 1 - tol))
+
+
+def vdata(x):
+    return x.data if isinstance(x, Vector3d) else np.asarray(x)
+
+
+def guarded(sig, rep, fn):
+    try:
+        fn()
+    except Exception as ex:  # noqa
+        fail(f"{sig}:raises", f"{type(ex).__name__}: {ex}", rep)
+
+
+# ---------------- nd: arrays == element-wise scalar path ----------------
+TO = [("to_matrix", lambda X: X.to_matrix(), (3, 3)), ("to_euler", lambda X: X.to_euler(), (3,)),
+      ("to_euler:degrees", lambda X: X.to_euler(degrees=True), (3,)),
+      ("to_axes_angles", lambda X: X.to_axes_angles(), (3,)), ("to_rodrigues", lambda X: X.to_rodrigues(), (3,)),
+      ("to_rodrigues:frank", lambda X: X.to_rodrigues(frank=True), (4,)),
+      ("to_homochoric", lambda X: X.to_homochoric(), (3,)), ("axis", lambda X: X.axis, (3,)),
+      ("angle", lambda X: X.angle, ())]
+ND_SHAPES = [(7,), (2, 3), (2, 1, 3), (1, 1), (3, 1, 2, 2), (1,), (4, 1)]
+
+
+def nd_stratum(k):
+    shape = ND_SHAPES[k % len(ND_SHAPES)]
+    cname, cls, kw = CLS[k % 4]
+    n = int(np.prod(shape))
+    qs = [gen()[1] for _ in range(n)]
+    A = cls(np.array(qs).reshape(shape + (4,)))
+    flat = A.data.reshape(-1, 4).copy()       # what the object stores (Rotation normalises on construction)
+    S = [Quaternion(r) for r in flat]
+    rep = {"q": A.data.tolist(), "class": cname, "shape": list(shape)}
+    st(f"nd/{cname}")
+    st(f"nd/shape{shape}")
+    val = {}
+    for name, f, tail in TO:
+        got = vdata(f(A))
+        want = np.stack([vdata(f(s))[0] for s in S]).reshape(shape + tail)
+        val[name] = want
+        okv = ang_close(got, want) if name == "to_euler" else close(got, want)
+        if not okv:
+            fail(f"nd:{name}", f"{cname}.{name} of a {shape} array differs from the element-wise conversions "
+                 f"(got shape {got.shape})", rep)
+    if not type(A.to_axes_angles()) is AxAngle or not type(A.to_rodrigues()) is Rodrigues \
+            or not type(A.to_homochoric()) is Homochoric:
+        fail("nd:return-type", "to_axes_angles/to_rodrigues/to_homochoric do not return AxAngle/Rodrigues/Homochoric", rep)
+    rof = val["to_rodrigues:frank"]
+    FROM = [("from_matrix", lambda c, i: c.from_matrix(val["to_matrix"][i])),
+            ("from_euler", lambda c, i: c.from_euler(val["to_euler"][i])),
+            ("from_euler:degrees+crystal2lab",
+             lambda c, i: c.from_euler(val["to_euler:degrees"][i], direction="crystal2lab", degrees=True)),
+            ("from_axes_angles", lambda c, i: c.from_axes_angles(val["axis"][i], val["angle"][i])),
+            ("from_axes_angles:Vector3d+degrees",
+             lambda c, i: c.from_axes_angles(Vector3d(val["axis"][i]), np.rad2deg(val["angle"][i]), degrees=True)),
+            ("from_homochoric", lambda c, i: c.from_homochoric(val["to_homochoric"][i])),
+            ("from_homochoric:Homochoric", lambda c, i: c.from_homochoric(Homochoric(val["to_homochoric"][i]))),
+            ("from_rodrigues", lambda c, i: c.from_rodrigues(val["to_rodrigues"][i])),
+            ("from_rodrigues:Rodrigues", lambda c, i: c.from_rodrigues(Rodrigues(val["to_rodrigues"][i]))),
+            ("from_rodrigues:frank", lambda c, i: c.from_rodrigues(rof[i][..., :3], rof[i][..., 3]))]
+    for name, f in FROM:
+        got = f(cls, Ellipsis)
+        want = np.stack([f(Quaternion, (j,) if shape == () else np.unravel_index(j, shape)).data.reshape(4)
+                         for j in range(n)]).reshape(shape + (4,))
+        if got.shape != shape or not type(got) is cls or not close(got.data, want):
+            fail(f"nd:{name}", f"{cname}.{name} of a {shape} array differs from the element-wise conversions "
+                 f"(got {type(got).__name__} of shape {got.shape})", rep)
+
+
+for k in range(max(N // 20, 14)):
+    guarded("nd", {"k": k}, lambda: nd_stratum(k))
+
+# from_axes_angles broadcasting: one axis with many angles, many axes with one angle
+for k in range(max(N // 50, 6)):
+    cname, cls, kw = CLS[k % 5]
+    shape = [(5,), (2, 3), (2, 1, 2)][k % 3]
+    n = int(np.prod(shape))
+    axs = np.array([R.choice(AXES) if R.random() < 0.3 else rand_vec(R) for _ in range(n)], float).reshape(shape + (3,))
+    angs = np.array([R.choice([0.0, PI, -1.0, 4.0, R.uniform(0, PI)]) for _ in range(n)]).reshape(shape)
+    a1, w1 = rand_vec(R), R.uniform(0.1, 3.0)
+    rep = {"axes": axs.tolist(), "angles": angs.tolist(), "axis1": a1, "angle1": w1, "class": cname}
+    st("nd/from_axes_angles:broadcast")
+
+    def bc():
+        X = cls.from_axes_angles(a1, angs, **kw)
+        Y = cls.from_axes_angles(axs, w1, **kw)
+        Z = cls.from_axes_angles(axs, angs, **kw)
+        for nm, G, fa, fw in (("axis1", X, lambda j: a1, lambda j: angs[j]), ("angle1", Y, lambda j: axs[j], lambda j: w1),
+                              ("matched", Z, lambda j: axs[j], lambda j: angs[j])):
+            okb = G.shape == shape
+            if okb:
+                for j in np.ndindex(*shape):
+                    u = np.asarray(fa(j), float)
+                    okb = okb and np.allclose(G[j].to_matrix()[0], rodrigues_ref(u / np.linalg.norm(u), float(fw(j))), atol=3e-8)
+            if not okb:
+                fail(f"nd:from_axes_angles:broadcast:{nm}", f"{cname}.from_axes_angles with broadcast operands ({nm}) "
+                     f"differs from the Rodrigues-formula reference (shape {G.shape})", rep)
+    guarded("nd:from_axes_angles:broadcast", rep, bc)
+
+# ---------------- neo / props / action: per quaternion, class cycled against the stratum ----------------
+M2 = max(N // 3, 60)
+for k in range(M2):
+    name, q = gen()
+    cname, cls, kw = CLS[k % 4]
+    st(f"neo/{cname}")
+    hemi = "neg" if q[0] < 0 else "pos"
+    rep = {"q": q, "stratum": name, "class": cname}
+    X = cls(q)
+    qd = X.data[0]
+    w_true = 2 * math.acos(min(1.0, abs(qd[0])))
+    om = Quaternion(q).to_matrix()[0]
+
+    def neo():
+        # Quaternion.axis / .angle
+        n_, w_ = X.axis.data[0], float(X.angle[0])
+        if not (0 <= w_ <= PI + 1e-12) or abs(w_ - w_true) > 1e-9:
+            fail(f"props:angle:{hemi}", f".angle = {w_} is not the rotation angle in [0, pi]", rep)
+        if abs(np.linalg.norm(n_) - 1) > 1e-9:
+            fail(f"props:axis:{hemi}", f".axis = {n_.tolist()} is not a unit vector", rep)
+        elif w_true > 1e-6 and not same_rot(Quaternion.from_axes_angles(n_, w_).data[0], q, 1e-9):
+            fail(f"props:axis:{hemi}", "from_axes_angles(q.axis, q.angle) is another rotation", rep)
+        # action through the class' own __mul__, one quaternion against several vectors
+        vs = np.array([rand_vec(R) for _ in range(3)])
+        if not np.allclose((X * Vector3d(vs)).data, vs @ om.T, atol=1e-9):
+            fail(f"action:matrix:{cname}", f"{cname} * Vector3d differs from to_matrix() @ v", rep)
+        if not np.allclose(X.to_matrix()[0], om, atol=1e-12):
+            fail(f"action:matrix:{cname}", f"{cname}.to_matrix() differs from Quaternion.to_matrix()", rep)
+        # AxAngle
+        aa = AxAngle.from_rotation(X)
+        pub = X.to_axes_angles()
+        for lbl, v in (("AxAngle.from_rotation", aa), ("to_axes_angles", pub)):
+            wv = float(v.angle[0])
+            if abs(wv - np.linalg.norm(v.data[0])) > 1e-12 or wv > PI + 1e-9:
+                fail(f"neo:{lbl}:range:{hemi}", f"{lbl}: angle property {wv} is not the vector length in [0, pi]", rep)
+            if w_true > 1e-6:
+                if not same_rot(Quaternion.from_axes_angles(v.axis, v.angle).data[0], q, 1e-9):
+                    fail(f"neo:{lbl}:roundtrip:{hemi}", f"from_axes_angles({lbl}.axis, .angle) is another rotation", rep)
+                v2 = AxAngle.from_axes_angles(v.axis, np.rad2deg(v.angle), degrees=True)
+                if not close(v2.data, v.data) or not close(AxAngle.from_axes_angles(v.axis.data * 3.0, v.angle).data, v.data):
+                    fail("neo:AxAngle.from_axes_angles", "AxAngle.from_axes_angles(axis, angle) does not rebuild the vector", rep)
+            elif wv > 1e-5:
+                fail(f"neo:{lbl}:roundtrip:{hemi}", f"{lbl} of a null rotation has angle {wv}", rep)
+        # Rodrigues
+        rr = Rodrigues.from_rotation(X)
+        pr = X.to_rodrigues()
+        if w_true > 1e-6:
+            for lbl, v in (("Rodrigues.from_rotation", rr), ("to_rodrigues", pr)):
+                cl = "pi" if qd[0] == 0 else hemi
+                if np.linalg.norm(v.data[0]) > 1e-4:
+                    if not same_rot(Quaternion.from_rodrigues(v).data[0], q, 1e-6):
+                        fail(f"neo:{lbl}:roundtrip:{cl}", f"from_rodrigues({lbl}(q)) (Rodrigues object passed back) is another rotation", rep)
+                    if abs(float(v.angle[0]) - w_true) > 1e-6:
+                        fail(f"neo:{lbl}:angle:{cl}", f"{lbl}(q).angle = {float(v.angle[0])}, rotation angle {w_true}", rep)
+        # Homochoric
+        hh = Homochoric.from_rotation(X)
+        hn = float(np.linalg.norm(hh.data[0]))
+        if not hn <= HO_MAX + 1e-9:
+            fail(f"neo:Homochoric.from_rotation:range:{hemi}", f"length {hn} > (3pi/4)^(1/3)", rep)
+        if not same_rot(Quaternion.from_homochoric(hh).data[0], q, 1e-6):
+            fail(f"neo:Homochoric.from_rotation:roundtrip:{hemi}", "from_homochoric(Homochoric.from_rotation(q)) is another rotation", rep)
+        if qd[0] >= 0 and not np.allclose(hh.data, X.to_homochoric().data, atol=1e-7):
+            fail("neo:Homochoric.from_rotation:agree", "Homochoric.from_rotation(q) differs from q.to_homochoric()", rep)
+    guarded(f"neo:{cname}", rep, neo)
+
+# ---------------- scipy ----------------
+for k in range(max(N // 10, 25)):
+    cname, cls, kw = CLS[k % 5]
+    m = [1, 1, 4][k % 3]
+    qs = np.array([gen()[1] for _ in range(m)])
+    st(f"scipy/{cname}")
+    rep = {"q": qs.tolist(), "class": cname}
+
+    def sp():
+        Srot = SciPyRotation.from_quat(qs[:, [1, 2, 3, 0]] if m > 1 else qs[0, [1, 2, 3, 0]])   # scalar last
+        X = cls.from_scipy_rotation(Srot, **kw)
+        ref = np.asarray(Srot.inv().as_matrix()).reshape(-1, 3, 3)
+        v = np.array(rand_vec(R))
+        # from_scipy_rotation goes through from_matrix, whose kernel zeroes quaternion components below ~1.6e-5
+        # (accepted by the main strata: |q.q'| >= 1 - 1e-7); tight tolerance outside that band
+        tm, tq = (1e-9, 1e-12) if in_om_band(qs) is False else (1e-4, 1e-7)
+        okq = X.shape == (m,) and type(X) is cls
+        okq = okq and np.allclose(X.to_matrix(), ref, atol=tm)
+        okq = okq and np.allclose((X * Vector3d(v)).data, np.asarray(Srot.inv().apply(v)).reshape(-1, 3), atol=tm * 10)
+        okq = okq and rows_same_rot(X.data, qs * np.array([1, -1, -1, -1]), tq)
+        if kw:
+            okq = okq and X.symmetry.name == kw["symmetry"].name
+        if not okq:
+            fail(f"scipy:from_scipy_rotation:{cname}", f"{cname}.from_scipy_rotation(S) is not the inverse of the SciPy "
+                 "rotation (matrix / action on a vector / quaternion)", rep)
+        # SciPy as the independent reference implementation of the orientation matrix itself
+        if not np.allclose(Quaternion(qs).to_matrix(), np.asarray(Srot.as_matrix()).reshape(-1, 3, 3), atol=1e-9):
+            fail("reference:matrix:scipy", "to_matrix() differs from SciPy's matrix of the same quaternion", rep)
+    guarded(f"scipy:from_scipy_rotation:{cname}", rep, sp)
+
+# ---------------- start: Euler triplets outside the nominal ranges, direction spellings, input forms ----------------
+DIRS = [("crystal2lab", True), ("MTEX", True), ("mtex", True), ("Crystal2Lab", True), ("LAB2CRYSTAL", False), ("lab2crystal", False)]
+FORMS = [("list", lambda a: np.asarray(a).tolist()), ("tuple", lambda a: tuple(map(tuple, np.atleast_2d(a).tolist())) if np.ndim(a) > 1 else tuple(np.asarray(a).tolist())),
+         ("ndarray", lambda a: np.asarray(a, float)), ("2d", lambda a: np.atleast_2d(np.asarray(a, float)))]
+for k in range(max(N // 8, 40)):
+    cname, cls, kw = CLS[k % 5]
+    dname, inv_ = DIRS[k % len(DIRS)]
+    fname, form = FORMS[(k // 2) % len(FORMS)]
+    Phi = [R.uniform(-4 * PI, 4 * PI), R.uniform(-PI, 0), R.uniform(PI, 2 * PI), -PI, 2 * PI, 3 * PI, 0.0, PI][k % 8]
+    e = [R.uniform(-4 * PI, 4 * PI), Phi, R.uniform(-4 * PI, 4 * PI)]
+    deg = bool((k // 3) % 2)
+    st(f"euler-wide/{dname}")
+    rep = {"eu": e, "class": cname, "direction": dname, "degrees": deg, "form": fname}
+
+    def ew():
+        X = cls.from_euler(form(np.rad2deg(e) if deg else e), direction=dname, degrees=deg, **kw)
+        ref = bunge_ref(e)
+        ref = ref.T if inv_ else ref
+        if X.shape != (1,) or not np.allclose(X.to_matrix()[0], ref, atol=1e-9):
+            fail("start:eu:wide", f"{cname}.from_euler of an Euler triplet outside the nominal ranges / direction={dname!r} / "
+                 f"degrees={deg} / {fname} input differs from the Bunge Z-X-Z reference", rep)
+        qx = X.data[0]
+        e2 = X.to_euler()[0]
+        q_ad, q_bc = qx[0] ** 2 + qx[3] ** 2, qx[1] ** 2 + qx[2] ** 2
+        ecl = "generic" if math.sqrt(q_ad * q_bc) >= 1e-9 else ("gimbal0" if q_bc < 1e-9 else "gimbalpi")
+        if not (0 <= e2[0] <= 2 * PI and 0 <= e2[1] <= PI and 0 <= e2[2] <= 2 * PI):
+            fail(f"range:eu:{ecl}", f"Euler angles {e2.tolist()} outside the documented ranges", rep)
+        ed = X.to_euler(degrees=True)[0]
+        if not np.allclose(ed, np.rad2deg(e2), atol=1e-9):
+            fail("flag:degrees", "to_euler(degrees=True) is not a rescaling", rep)
+        if not same_rot(Quaternion.from_euler(e2).data[0], qx):
+            fail(f"roundtrip:eu:{ecl}", "Euler -> quaternion -> Euler -> quaternion changes the rotation", rep)
+    guarded("start:eu:wide", rep, ew)
+
+# ---------------- start: matrices (exact two-fold rotations about arbitrary axes; the 24 integer matrices) -------
+for k in range(max(N // 10, 30)):
+    cname, cls, kw = CLS[k % 5]
+    fname, form = [("ndarray", lambda a: a), ("list", lambda a: a.tolist()), ("tuple", lambda a: tuple(map(tuple, a.tolist()))),
+                   ("stack", lambda a: np.stack([a, a.T]))][k % 4]
+    ax = np.array(norm(R.choice(AXES) if R.random() < 0.4 else rand_vec(R)))
+    wm, mcl = [(PI, "pi"), (R.uniform(0.01, PI - 0.01), "generic"), (0.0, "zero"), (PI, "pi"), (R.choice(OFFS[3:]), "near0")][k % 5]
+    Mx = 2 * np.outer(ax, ax) - np.eye(3) if mcl == "pi" else rodrigues_ref(ax, wm)
+    st(f"matrix-start/{mcl}")
+    rep = {"axis": ax.tolist(), "angle": wm, "matrix": Mx.tolist(), "class": cname, "form": fname}
+
+    def ms():
+        X = cls.from_matrix(form(Mx), **kw)
+        back = X.to_matrix()
+        want = np.stack([Mx, Mx.T]) if fname == "stack" else Mx[np.newaxis]
+        tm = 1e-4 if in_om_band(axang_quat(ax.tolist(), wm)[1:] + [math.cos(wm / 2) if mcl != "pi" else 0.0]) else 1e-8
+        if back.shape != want.shape or not np.allclose(back, want, atol=tm):
+            fail(f"roundtrip:matrix-start:{mcl}", f"{cname}.from_matrix(M).to_matrix() != M ({fname} input)", rep)
+        v = np.array(rand_vec(R))
+        if not np.allclose((X[0] * Vector3d(v)).data[0], Mx @ v, atol=10 * tm):
+            fail(f"action:matrix-start:{mcl}", f"{cname}.from_matrix(M) * v != M @ v", rep)
+    guarded(f"roundtrip:matrix-start:{mcl}", rep, ms)
+
+import itertools  # noqa: E402
+
+INT24 = []
+for perm in itertools.permutations(range(3)):
+    for sg in itertools.product([1, -1], repeat=3):
+        Mi = np.zeros((3, 3), dtype=np.int64)
+        for i_ in range(3):
+            Mi[i_, perm[i_]] = sg[i_]
+        if round(np.linalg.det(Mi)) == 1:
+            INT24.append(Mi)
+st("matrix-start/int24")
+for dt in (np.int64, np.float64):
+    def m24():
+        Ms = np.stack(INT24).astype(dt)
+        for lbl, X in (("stack", Quaternion.from_matrix(Ms)), ("2x12", Orientation.from_matrix(Ms.reshape(2, 12, 3, 3), symmetry=_sym.Oh))):
+            back = X.to_matrix().reshape(-1, 3, 3)
+            bad = [i_ for i_ in range(24) if not np.allclose(back[i_], INT24[i_], atol=1e-9)]
+            if bad:
+                fail(f"roundtrip:matrix-start:int24:{np.dtype(dt).name}", f"from_matrix(M).to_matrix() != M for the signed permutation "
+                     f"matrix {INT24[bad[0]].tolist()} ({lbl}, dtype {np.dtype(dt).name})", {"matrix": INT24[bad[0]].tolist(), "dtype": np.dtype(dt).name})
+            e24 = X.to_euler().reshape(-1, 3)
+            q24 = X.data.reshape(-1, 4)
+            for i_ in range(24):
+                qi = q24[i_]
+                if math.sqrt((qi[0] ** 2 + qi[3] ** 2) * (qi[1] ** 2 + qi[2] ** 2)) < 1e-9 and qi[1] ** 2 + qi[2] ** 2 >= 1e-9:
+                    continue        # gimbal Phi = pi: listed finding, reported by the main strata
+                if not np.allclose(bunge_ref(e24[i_]), INT24[i_], atol=1e-8):
+                    fail("reference:eu:int24", f"Bunge matrix of from_matrix(M).to_euler() != M for {INT24[i_].tolist()}", {"matrix": INT24[i_].tolist()})
+    guarded("roundtrip:matrix-start:int24", {"dtype": np.dtype(dt).name}, m24)
+
+
+# ---------------- start: axis-angle pairs, homochoric, Rodrigues, Rodrigues-Frank vectors ----------------
+def ho_angle(h):
+    lo, hi = 0.0, PI
+    for _ in range(80):
+        mid = (lo + hi) / 2
+        if (0.75 * (mid - math.sin(mid))) ** (1 / 3) < h:
+            lo = mid
+        else:
+            hi = mid
+    return (lo + hi) / 2
+
+
+AFORMS = [("list", lambda a: list(a)), ("tuple", lambda a: tuple(a)), ("ndarray", lambda a: np.array(a, float)),
+          ("Vector3d", lambda a: Vector3d(np.array(a, float))), ("2d", lambda a: np.array([a], float))]
+for k in range(max(N // 4, 80)):
+    cname, cls, kw = CLS[k % 5]
+    fname, form = AFORMS[(k // 5) % len(AFORMS)]
+    ax = [float(x) for x in (R.choice(AXES) if R.random() < 0.4 else rand_vec(R, R.choice([1.0, 1e-3, 50.0])))]
+    un = np.array(norm(ax))
+    wcl, w = [("generic", R.uniform(0.01, PI - 0.01)), ("zero", 0.0), ("pi", PI), ("near0", R.choice(OFFS) * R.choice([1, -1])),
+              ("nearpi", PI + R.choice(OFFS) * R.choice([1, -1])), ("negative", -R.uniform(0.01, PI)),
+              ("over-pi", R.uniform(PI + 0.01, 2 * PI - 0.01)), ("over-2pi", R.uniform(2 * PI + 0.01, 4 * PI))][k % 8]
+    rep = {"axis": ax, "angle": w, "class": cname, "form": fname}
+    q_ref = np.array(axang_quat(un.tolist(), w))
+    st(f"start/{wcl}")
+
+    def sa():
+        # axis-angle pair -> quaternion -> matrix against the Rodrigues formula; back within [0, pi]
+        deg = bool(k % 2)
+        X = cls.from_axes_angles(form(ax), np.rad2deg(w) if deg else w, degrees=deg, **kw)
+        if X.shape != (1,) or not np.allclose(X.to_matrix()[0], rodrigues_ref(un, w), atol=3e-8):
+            fail(f"start:ax:{wcl}", f"{cname}.from_axes_angles(axis, angle, degrees={deg}) ({fname} axis, not normalised) differs "
+                 "from the Rodrigues-formula reference", rep)
+        back = X.to_axes_angles()
+        wb = float(back.angle[0])
+        if wb > PI + 1e-9:
+            fail(f"range:ax:start:{wcl}", f"rotation angle {wb} > pi from to_axes_angles()", rep)
+        if not same_rot(Quaternion.from_axes_angles(back.axis, back.angle).data[0], q_ref, 1e-9) and abs(math.sin(w / 2)) > 1e-6:
+            fail(f"roundtrip:ax:start:{wcl}", "axis-angle -> quaternion -> axis-angle -> quaternion changes the rotation", rep)
+        # Rodrigues vector n tan(w/2) (three components) and (n, tan(w/2)) (Rodrigues-Frank)
+        w0 = math.remainder(w, 2 * PI)       # in [-pi, pi]
+        t = math.tan(w0 / 2)
+        if 1e-5 < abs(t) < 1e8:
+            r3 = un * t
+            rin = Rodrigues(r3) if fname == "Vector3d" else (form(r3.tolist()) if fname != "Vector3d" else None)
+            Y = cls.from_rodrigues(rin)
+            if Y.shape != (1,) or not type(Y) is cls or not same_rot(Y.data[0], q_ref, 1e-9):
+                fail(f"start:ro:{wcl}", f"{cname}.from_rodrigues(n tan(w/2)) ({fname}) is not the rotation by w about n", rep)
+            rb = Y.to_rodrigues().data[0]
+            if not np.allclose(rb, r3, rtol=1e-6, atol=1e-9):
+                fail(f"roundtrip:ro:start:{wcl}", "Rodrigues vector -> quaternion -> Rodrigues vector changes the vector", rep)
+        if abs(t) > 1e-5:
+            tf = math.inf if wcl == "pi" else abs(t)
+            nf = un * (1 if t >= 0 or wcl == "pi" else -1)
+            Z = cls.from_rodrigues(form(nf.tolist()) if fname != "Vector3d" else Vector3d(nf), np.array([tf]))
+            if Z.shape != (1,) or not same_rot(Z.data[0], q_ref, 1e-9):
+                fail(f"start:rofrank:{wcl}", f"{cname}.from_rodrigues(n, tan(w/2)) ({fname}) is not the rotation by w about n", rep)
+        # homochoric vector of length (3/4 (w - sin w))^(1/3), w in [0, pi]
+        wh = abs(w0)
+        h = (0.75 * (wh - math.sin(wh))) ** (1 / 3) if wcl != "pi" else HO_MAX
+        hv = un * h * (1 if w0 >= 0 else -1)
+        qh = np.array(axang_quat(un.tolist(), ho_angle(h) * (1 if w0 >= 0 else -1)))
+        H = cls.from_homochoric(Homochoric(hv) if fname == "Vector3d" else form(hv.tolist()))
+        if H.shape != (1,) or not type(H) is cls or not same_rot(H.data[0], qh, 1e-8) or not same_rot(H.data[0], q_ref, 1e-8):
+            fail(f"start:ho:{wcl}", f"{cname}.from_homochoric(h) ({fname}) is not the rotation whose angle solves "
+                 "|h|^3 = 3/4 (w - sin w)", rep)
+        hb = H.to_homochoric().data[0]
+        if H.data[0][0] >= 0 and not np.allclose(hb, hv, atol=1e-9 if h > 2e-4 else 2e-4):
+            fail(f"roundtrip:ho:start:{wcl}", "homochoric vector -> quaternion -> homochoric vector changes the vector", rep)
+    guarded(f"start:ax:{wcl}", rep, sa)
+
+# ---------------- pure: conversions leave their inputs alone; repeated calls agree ----------------
+for k in range(max(N // 25, 12)):
+    cname, cls, kw = CLS[k % 4]
+    qs = np.array([gen()[1] for _ in range(4)]).reshape(2, 2, 4)
+    X = cls(qs)
+    before = X.data.copy()
+    st("pure")
+    rep = {"q": qs.tolist(), "class": cname}
+
+    def pu():
+        first = {}
+        for rnd in range(2):
+            for name, f, tail in TO:
+                out = vdata(f(X)).copy()
+                if rnd and not close(out, first[name], 0.0):
+                    fail(f"pure:{name}", f"{cname}.{name} called twice on the same object gives different values", rep)
+                first.setdefault(name, out)
+                if not np.array_equal(X.data, before):
+                    fail(f"pure:{name}", f"{cname}.{name} modifies the quaternion it is called on", rep)
+                    X.data[...] = before
+        ins = {"from_euler": (np.rad2deg(first["to_euler"]), lambda a: cls.from_euler(a, degrees=True, direction="crystal2lab")),
+               "from_matrix": (first["to_matrix"].copy(), lambda a: cls.from_matrix(a)),
+               "from_axes_angles": (first["axis"] * 2.5, lambda a: cls.from_axes_angles(a, np.rad2deg(first["angle"]), degrees=True)),
+               "from_axes_angles:Vector3d": (first["axis"] * 2.5, lambda a: cls.from_axes_angles(Vector3d(a), first["angle"])),
+               "from_homochoric": (first["to_homochoric"].copy(), lambda a: cls.from_homochoric(Homochoric(a))),
+               "from_rodrigues": (first["to_rodrigues"].copy(), lambda a: cls.from_rodrigues(Rodrigues(a))),
+               "from_rodrigues:frank": (first["to_rodrigues:frank"].copy(), lambda a: cls.from_rodrigues(a[..., :3], a[..., 3]))}
+        for name, (a, f) in ins.items():
+            a0 = a.copy()
+            ang0 = first["angle"].copy()
+            f(a)
+            if not np.array_equal(a, a0, equal_nan=True) or not np.array_equal(first["angle"], ang0):
+                fail(f"pure:{name}", f"{cname}.{name} modifies the array passed to it", rep)
+    guarded("pure", rep, pu)
+
+# ---------------- chain: one rotation carried through every representation in turn ----------------
+for k in range(max(N // 5, 60)):
+    name, q = gen()
+    cname, cls, kw = CLS[k % 5]
+    q_ad, q_bc = q[0] ** 2 + q[3] ** 2, q[1] ** 2 + q[2] ** 2
+    if math.sqrt(q_ad * q_bc) < 1e-9 and q_bc >= 1e-9:
+        continue            # to_euler at Phi = pi: listed finding, reported by the main strata
+    st(f"chain/{cname}")
+    rep = {"q": q, "stratum": name, "class": cname}
+
+    def ch():
+        w_true = 2 * math.acos(min(1.0, abs(q[0])))
+        steps = [("euler", lambda X: cls.from_euler(X.to_euler(degrees=True), degrees=True, **kw)),
+                 ("matrix", lambda X: cls.from_matrix(X.to_matrix(), **kw)),        # scalar part >= 0 from here on
+                 ("homochoric", lambda X: cls.from_homochoric(X.to_homochoric())),
+                 ("axes_angles", lambda X: cls.from_axes_angles(X.to_axes_angles().axis, X.to_axes_angles().angle, **kw)),
+                 ("rodrigues", lambda X: cls.from_rodrigues(X.to_rodrigues())),
+                 ("rodrigues:frank", lambda X: cls.from_rodrigues(X.to_rodrigues(frank=True)[..., :3], X.to_rodrigues(frank=True)[..., 3])),
+                 ("euler:crystal2lab", lambda X: ~cls.from_euler(X.to_euler(), direction="crystal2lab", **kw))]
+        rot = k % len(steps)
+        order = steps[:2] + [steps[2 + (j + rot) % 5] for j in range(5)]
+        X = cls(q)
+        for sname, f in order:
+            if w_true < 1e-4 and sname.startswith(("axes", "rod")):
+                continue
+            x = X.data[0]
+            if sname.startswith("euler") and math.sqrt((x[0] ** 2 + x[3] ** 2) * (x[1] ** 2 + x[2] ** 2)) < 1e-9 <= x[1] ** 2 + x[2] ** 2:
+                continue    # an earlier step (Rodrigues-Frank within 1e-3 of pi, om2qu) snapped it onto Phi = pi: listed finding
+            X = f(X)
+            if not type(X) is cls or X.shape != (1,) or not same_rot(X.data[0], q, 1e-6):
+                fail(f"chain:{sname}", f"after the steps up to {sname} of a chain of conversions ({cname}) the rotation has changed", rep)
+                return
+    guarded("chain", rep, ch)
+
+# ---------------- dtype: integer and single-precision quaternions ----------------
+INTQ = np.array([[1, 0, 0, 0], [-1, 0, 0, 0], [0, 1, 0, 0], [0, -1, 0, 0], [0, 0, 1, 0], [0, 0, -1, 0], [0, 0, 0, 1], [0, 0, 0, -1]])
+F32 = np.array([rand_unit_quat(R, h) for h in ("pos", "neg", "pos", "neg")])
+for dname, raw, tol in (("int64", INTQ.astype(np.int64), 1e-12), ("int32", INTQ.astype(np.int32), 1e-12), ("float32", F32.astype(np.float32), 2e-6)):
+    for cname, cls, kw in CLS[:3]:
+        st(f"dtype/{dname}")
+        rep = {"q": raw.tolist(), "dtype": dname, "class": cname}
+
+        def dt_():
+            X, Y = cls(raw), cls(raw.astype(np.float64))
+            for name, f, tail in TO:
+                a, b = vdata(f(X)), vdata(f(Y))
+                okd = ang_close(a, b, tol) if name == "to_euler" else close(a, b, tol)
+                if not okd:
+                    fail(f"dtype:{dname}:{name}", f"{cname}.{name} of {dname} data differs from the same data as float64", rep)
+            vv = Vector3d(np.array(rand_vec(R)))
+            if not close((X * vv).data, (Y * vv).data, tol):
+                fail(f"dtype:{dname}:action", f"{cname} * Vector3d of {dname} data differs from the same data as float64", rep)
+        guarded(f"dtype:{dname}", rep, dt_)
+# integer Euler angles / axes / angles in degrees (the documented usage from_axes_angles((0, 0, -1), 90, degrees=True))
+for e_int in ([90, 0, 0], [0, 90, 0], [180, 180, 0], [45, 54, 270], [360, 0, 90], [-90, 30, 450]):
+    st("dtype/int-degrees")
+    rep = {"eu_degrees": e_int}
+
+    def di():
+        for cname, cls, kw in CLS:
+            if not np.allclose(cls.from_euler(e_int, degrees=True, **kw).to_matrix()[0], bunge_ref(np.deg2rad(e_int)), atol=1e-9) or \
+                    not np.allclose(cls.from_euler(np.array([e_int]), degrees=True, **kw).to_matrix()[0], bunge_ref(np.deg2rad(e_int)), atol=1e-9):
+                fail("dtype:int:from_euler", f"{cname}.from_euler(integer degrees) differs from the Bunge reference", rep)
+            axi = [[0, 0, -1], [1, 1, 0], [1, -1, 1]][abs(e_int[0]) % 3]
+            if not np.allclose(cls.from_axes_angles(axi, e_int[2] + 30, degrees=True, **kw).to_matrix()[0],
+                               rodrigues_ref(norm(axi), math.radians(e_int[2] + 30)), atol=1e-9):
+                fail("dtype:int:from_axes_angles", f"{cname}.from_axes_angles(integer axis, integer degrees) differs from the Rodrigues reference", rep)
+    guarded("dtype:int-degrees", rep, di)
 
 emit({"cases": cases, "fails": fails, "strata": strata})
